@@ -296,6 +296,40 @@ def _judged_call(case, att, q, k, v, m, sh, dtype):
     return out, {"classes": sorted(set(classes)), "v": v, "sh": sh}
 
 
+
+
+def _reuse_patterns(case, att, q, k, v, m, tol):
+    """The same tensor objects handed in again after their contents (or the module's parameters) were changed in
+    place - a reused input buffer, an optimizer step, load_state_dict - in eval and in train mode: the output must be
+    that of the current contents, i.e. equal to the call on fresh copies of the same data."""
+    import torch
+
+    dtype = case["dtype"]
+    tq, tk, tv, tm = _t(q, dtype), _t(k, dtype), _t(v, dtype), _t(m, dtype)
+    was_training = att.training
+    for mode in ("eval", "train"):
+        getattr(att, mode)()
+        att(tq, tk, tv, tm)
+        with torch.no_grad():
+            tk.mul_(-1.0).add_(0.25)
+            tv.add_(1.0)
+        second = att(tq, tk, tv, tm)
+        fresh = att(tq, tk.clone(), tv.clone(), tm)
+        _close("%s mode: output after the key/value buffers were refilled in place differs from the same content in fresh tensors" % mode,
+               second.detach().double().numpy(), fresh.detach().double().numpy(), tol["same"])
+        params = [p_ for p_ in att.parameters()]
+        if params:
+            with torch.no_grad():
+                for p_ in params:
+                    p_.mul_(0.5).add_(0.125)
+            third = att(tq, tk, tv, tm)
+            fresh = att(tq, tk.clone(), tv.clone(), tm)
+            _close("%s mode: output after the parameters were changed in place differs from the call on fresh tensors" % mode,
+                   third.detach().double().numpy(), fresh.detach().double().numpy(), tol["same"])
+    att.train(was_training)
+    return ["inputs_refilled_in_place"]
+
+
 # ------------------------------------------------------------------ single-head flavours
 
 
@@ -412,6 +446,8 @@ def _single_check(case):
         if mixed:
             classes.append("mask_mixed_group>=3")
     nontrivial = mixed and "broadcast_query" in classes
+    if not kse:
+        classes += _reuse_patterns(case, att, q, k, v, m, tol)
     return Info(nontrivial=nontrivial, classes=classes)
 
 
@@ -530,6 +566,7 @@ def _multi_check(case):
     if H >= 2:
         classes.append("heads>=2")
     nontrivial = m is not None and not m.all() and len({fq, fk, fv, fc}) > 1
+    classes += _reuse_patterns(case, att, q, k, v, m, tol)
     return Info(nontrivial=nontrivial, classes=classes)
 
 
